@@ -1,19 +1,29 @@
 #!/bin/bash
-# ./selftest.sh <Cxx> [mutant.diff ...]  -- applies each mutant to /repo, runs the quick check, expects a VIOLATION, reverts.
-# Not part of quick/thorough. Refuses to run if /repo has uncommitted changes.
+# ./selftest.sh <Cxx> [patch ...]  -- for each patch (default mutants/<Cxx>/*.diff and seeded/*/patch.diff whose meta names <Cxx>):
+# makes a scratch worktree of /repo's HEAD under /dev/shm, applies the patch there, runs the quick check with VERIF_REPO pointing
+# at it and expects a VIOLATION; removes the worktree. /repo itself is never modified. Not part of quick/thorough.
 cd /verif
 id="$1"; shift
-if [ -n "$(git -C /repo status --short)" ]; then echo "/repo is dirty; refusing"; exit 2; fi
-files=("$@"); [ ${#files[@]} -eq 0 ] && files=(mutants/$id/*.diff)
+files=("$@")
+if [ ${#files[@]} -eq 0 ]; then
+  files=(mutants/$id/*.diff)
+  for m in seeded/*/meta.json; do
+    [ -f "$m" ] && jq -e --arg id "$id" '.property==$id or ((.also_breaks // []) | index($id))' "$m" >/dev/null 2>&1 && files+=("$(dirname $m)/patch.diff")
+  done
+fi
 rc=0
 for m in "${files[@]}"; do
-  if ! git -C /repo apply --check "$PWD/$m" 2>/dev/null; then echo "SKIP $m (does not apply)"; rc=1; continue; fi
-  git -C /repo apply "$PWD/$m"
-  out=$(VERIF_BUDGET_S=${SELFTEST_BUDGET_S:-400} ./run.sh "$id" quick 2>&1); code=$?
-  git -C /repo apply -R "$PWD/$m"
-  nv=$(echo "$out" | grep -c '^VIOLATION')
-  sig=$(echo "$out" | grep -m1 'signature:' | sed 's/^ *//')
-  if [ $code -eq 1 ] && [ $nv -gt 0 ]; then echo "CAUGHT $m ($nv violations; first $sig)"; else echo "MISSED $m (exit $code)"; rc=1; fi
+  [ -f "$m" ] || continue
+  wt=$(mktemp -d /dev/shm/verif-wt.XXXXXX); rmdir "$wt"
+  git -C /repo worktree add -q --detach "$wt" HEAD || { echo "cannot create worktree"; exit 2; }
+  if ! git -C "$wt" apply "$PWD/$m" 2>/dev/null; then echo "SKIP $m (does not apply)"; rc=1
+  else
+    out=$(VERIF_REPO="$wt" VERIF_OUT="$wt.out" VERIF_BUDGET_S=${SELFTEST_BUDGET_S:-400} ./run.sh "$id" ${SELFTEST_TIER:-quick} 2>&1); code=$?
+    nv=$(echo "$out" | grep -c '^VIOLATION')
+    sig=$(echo "$out" | grep -m1 'signature:' | sed 's/^ *//')
+    if [ $code -eq 1 ] && [ $nv -gt 0 ]; then echo "CAUGHT $m ($nv violations; first $sig)"; else echo "MISSED $m (exit $code)"; echo "$out" | tail -3; rc=1; fi
+  fi
+  git -C /repo worktree remove --force "$wt"; rm -rf "$wt.out"
 done
-rm -rf replays/$id
+git -C /repo worktree prune
 exit $rc
